@@ -92,7 +92,11 @@ structure State where
   nullCtx : Option Id := none
   /-- newest first -/
   log : List Event := []
+  /-- fuel of a recursive model function exhausted (ghost; never set in any run seen) -/
   oof : Bool := false
+  /-- ghost assertion of the `list_for_each_safe` protocol failed: the prefetched element had
+  left the child list, or children were left under a context at the moment it is released -/
+  stuck : Bool := false
 deriving DecidableEq, Repr, Inhabited
 
 namespace State
@@ -111,6 +115,8 @@ def push (s : State) (o : Obj) : State :=
 def addLog (s : State) (e : Event) : State := { s with log := e :: s.log }
 
 def setOof (s : State) : State := { s with oof := true }
+
+def setStuck (s : State) : State := { s with stuck := true }
 
 def live (s : State) (i : Id) : Bool := (s.get i).isSome
 
@@ -378,6 +384,8 @@ def run (cfg : Cfg) : Nat → State → Call → State × Int
           match s3.get o with
           | none => (s3, 0)
           | some ob3 =>
+            -- ghost assertion: free_children(ptr, true) left nothing behind
+            let s3 := if ob3.children.isEmpty then s3 else s3.setStuck
             let s4 := (s3.remove o).addLog (.release o)
             let s5 := (applyLim cfg s4.fuel s4 ob3.parent (-(totalSize ob3.size : Int)) false).getD s4
             (s5, 0)
@@ -409,6 +417,8 @@ def run (cfg : Cfg) : Nat → State → Call → State × Int
     match cur with
     | none => (s, 0)
     | some c =>
+      -- ghost assertion: the element the cursor stands on is still in the list
+      let s := if (childrenOf s o).contains c then s else s.setStuck
       let tmp := succOf (childrenOf s o) c
       match s.get c with
       | none => (s, 0)
